@@ -203,6 +203,9 @@ def m_dict(it, a, k):
             d.update(v)
         elif isinstance(v, MapRef):
             raise Unsupported("dict() copy of a symbolic dict")
+        elif isinstance(v, Opaque) and not k:
+            # a shallow copy of a value the engine only carries around (the registry handed to a serialiser): still opaque
+            return Opaque(f"dict({v.name})")
         else:
             for kv in ops.iter_concrete(it, v):
                 kk, vv = kv
@@ -793,7 +796,25 @@ def s_rpartition(it, t, a, k):
     return (head, ops.mk("str", sep), tail)
 
 
+def s_splitlines(it, t, a, k):
+    """str.splitlines() of a symbolic text: a list of lines of unknown length; the one law used (a fact about the
+    CPython builtin, audited in audits/laws_audit.py): the list is empty exactly for the empty string."""
+    if a or k:
+        raise Unsupported("splitlines(keepends)")
+    from .core import lit_value, strlit
+
+    lv = lit_value(t)
+    if lv is not None:
+        return lv.splitlines()
+    n = it.ctx.fresh_term(INT, "splitlines_len")
+    it.ctx.add_fact(n >= 0)
+    it.ctx.add_fact((n == 0) == (t == strlit("")))
+    get = z3.Function(f"splitlines_get!{it.ctx.fresh_term(INT, 'sl').decl().name()}", INT, STR)
+    return SymList(n, lambda i, _g=get: _g(i))
+
+
 STR_METHODS = {
+    "splitlines": s_splitlines,
     "partition": s_partition,
     "rpartition": s_rpartition,
     "rstrip": s_rstrip,
